@@ -64,6 +64,7 @@ structure Obs (R : Type) where
   guidelines : List (Guideline R)
   lib : String
   stream : List (Ev R)
+deriving DecidableEq
 
 def Glyph.obs (g : Glyph R) : Obs R :=
   ⟨g.width, g.height, g.unicodes, g.note, g.image, g.anchors, g.guidelines, g.lib, g.draw⟩
@@ -78,10 +79,14 @@ def Glyph.allIdents (g : Glyph R) : List Ident :=
 /-- a valid glyph (UFO: identifiers are unique within a glyph) -/
 def Glyph.Valid (g : Glyph R) : Prop := g.allIdents.Nodup
 
+instance (g : Glyph R) : Decidable g.Valid := by unfold Glyph.Valid; infer_instance
+
 def Content.allIdents (c : Content R) : List Ident :=
   present (c.guidelines.map (·.ident)) ++ present (c.anchors.map (·.ident)) ++ identsOf c.contours c.components
 
 def Content.Valid (c : Content R) : Prop := c.allIdents.Nodup
+
+instance (c : Content R) : Decidable c.Valid := by unfold Content.Valid; infer_instance
 
 /-! ### "conflicting identifiers are dropped" -/
 
@@ -125,6 +130,19 @@ where
       | some a, some b => some (a ++ b)
       | _, _ => none
 
+/-- `Glyph._decomposeComponent` as it was BEFORE repo_fixes/C13-decompose-shallow.diff: the pen tests
+incoming identifiers against the registry while the glyph's own shallow-loaded contours are not in
+it yet; they are deepened by the first `endPath` (`appendContour` → `len(self)`). -/
+def decomposeAtUnfixed [DecidableEq R] (fuel : Nat) (l : Layer R) (g : Glyph R) (idx : Nat) : Except Err (Glyph R) :=
+  match g.components[idx]? with
+  | none => .error .indexError
+  | some c =>
+    match expand fuel l c.base c.t with
+    | none => .error .outOfFuel
+    | some evs => do
+      let g' ← build true evs g
+      .ok (removeComponentAt g' idx)
+
 /-- the component graph of `l` is acyclic: some rank strictly decreases along every reference -/
 def Acyclic (l : Layer R) (rank : String → Nat) : Prop :=
   ∀ n g, AL.get? l n = some g → ∀ k ∈ g.components, rank k.base < rank n
@@ -162,16 +180,24 @@ def segsOK : Bool → List (Point R) → Bool
 * a closed contour of off-curve points only (at least two) whose first and last coordinates differ.
 (An empty contour vanishes, a lone non-`move` point comes back as `move`, an off-curve-only contour
 whose first and last points coincide loses its last point: fontTools behaviour, outside this predicate.) -/
-def SegFaithful [DecidableEq R] (pts : List (Point R)) : Prop :=
+def segFaithful [DecidableEq R] (pts : List (Point R)) : Bool :=
   match pts with
-  | [] => False
+  | [] => false
   | [p] => p.seg = some .move
   | p :: q :: r =>
-    if p.seg = some .move then segsOK false (q :: r) = true
+    if p.seg = some .move then segsOK false (q :: r)
     else
       match firstOn (p :: q :: r) with
-      | none => ∀ l, (q :: r).getLast? = some l → p.pt ≠ l.pt
-      | some i => segsOK false ((p :: q :: r).drop (i + 1) ++ (p :: q :: r).take (i + 1)) = true
+      | none =>
+        match (q :: r).getLast? with
+        | some l => decide (p.pt ≠ l.pt)
+        | none => true
+      | some i => segsOK false ((p :: q :: r).drop (i + 1) ++ (p :: q :: r).take (i + 1))
+
+def SegFaithful [DecidableEq R] (pts : List (Point R)) : Prop := segFaithful pts = true
+
+instance [DecidableEq R] (pts : List (Point R)) : Decidable (SegFaithful pts) := by
+  unfold SegFaithful; infer_instance
 
 /-- point pen → segment pen → point pen, for the points of one contour -/
 def segRoundTrip [DecidableEq R] (pts : List (Point R)) : Option (List (Ev R)) :=
